@@ -96,7 +96,18 @@ def run : Runner
     let outs ← list? parseOut outs
     let tx : Tx := ⟨ins, outs⟩
     let s := SortTx tx
-    let model := " ".intercalate [insTok s.ins, outsTok s.outs, tokB (IsSorted tx), tokB (IsSorted s), "1", "1", "1", "1", insTok s.ins, outsTok s.outs, heapFrame tx]
+    -- above 12 elements `sort.Sort` is not insertion sort and not stable: among inputs with EQUAL (txid, index) the
+    -- order of the remaining fields (the tag) is whatever the algorithm produces. There the model fixes the key
+    -- sequence only: the implementation's list is echoed when it is a permutation of the inputs with the model's keys.
+    let implCols := impl.splitOn " "
+    let echo (col : Nat) : List TxIn :=
+      if ins.length ≤ 12 then s.ins else
+      match list? parseIn (implCols.getD col "") with
+      | some theirs =>
+        if isPermIn ins theirs && theirs.map (fun i => (i.hash, i.index)) == s.ins.map (fun i => (i.hash, i.index))
+        then theirs else s.ins
+      | none => s.ins
+    let model := " ".intercalate [insTok (echo 0), outsTok s.outs, tokB (IsSorted tx), tokB (IsSorted s), "1", "1", "1", "1", insTok (echo 8), outsTok s.outs, heapFrame tx]
     -- C18 evaluated on the implementation's observation with the spec-side keys
     let prop := match impl.splitOn " " with
       | [si, so, was, isS, unch, metaOk, idem, indep, pi, po, heap] =>
